@@ -32,7 +32,8 @@ META = {
     ],
     "shard_timeout": {"quick": 900, "thorough": 3600},
 }
-ARGS = [([], {}), ([1], {}), ([], {"k": 1}), ([1, "two"], {"k": 1}), ([[1, 2]], {"opt": {"x": 1}}), ([None, 0, ""], {}), ([], {"a": None, "b": [3]})]
+ARGS = [([], {}), ([1], {}), ([], {"k": 1}), ([1, "two"], {"k": 1}), ([[1, 2]], {"opt": {"x": 1}}), ([None, 0, ""], {}), ([], {"a": None, "b": [3]}),
+        (["<grumpy>"], {}), ([1, "<grumpy>"], {"k": 1})]  # <grumpy>: an object whose repr() raises
 
 
 def plan(tier, seed):
